@@ -135,39 +135,89 @@ func c19DestroyFanOut(r *core.Run) {
 				}
 			}
 		}
+		// "extract method" tolerance: the per-partition work may live in a same-package helper
+		// that receives the loop's partition id; the helper call then stands for the primary
+		// destroy (which must be unconditional in the helper) and the backup destroy is judged
+		// by the conditions inside the helper plus those at the call site.
+		var backExtra []core.Cond
+		if prim == nil && back == nil {
+			for b := range region {
+				for _, in := range b.Instrs {
+					c, isCall := in.(*ssa.Call)
+					if !isCall {
+						continue
+					}
+					h := p.ByObj[core.CalleeObj(c)]
+					if h == nil || h.SSA == nil || h.SSA == f || h.Pkg.PkgPath != f.Pkg.Pkg.Path() || len(h.SSA.Blocks) == 0 {
+						continue
+					}
+					var hp, hb ssa.Instruction
+					core.Instrs(h.SSA, func(hin ssa.Instruction) {
+						if hin.Parent() != h.SSA || !callTo(fnDestroyFrag)(hin) {
+							return
+						}
+						arg := hin.(ssa.CallInstruction).Common().Args[1]
+						pc, ok := arg.(*ssa.Call)
+						if !ok || !callTo(partByID)(pc) {
+							return
+						}
+						// the id is the helper's parameter bound to the loop variable
+						idOK := false
+						for ai, par := range h.SSA.Params {
+							if ssa.Value(par) == pc.Call.Args[len(pc.Call.Args)-1] && ai < len(c.Call.Args) && c.Call.Args[ai] == ssa.Value(loop.Phi) {
+								idOK = true
+							}
+						}
+						if !idOK {
+							return
+						}
+						switch core.LastField(pc.Call.Args[0]) {
+						case "primary":
+							hp = hin
+						case "backup":
+							hb = hin
+						}
+					})
+					if hp != nil && hp.Block() == h.SSA.Blocks[0] {
+						prim = in
+						if hb != nil {
+							back = hb
+							backExtra = core.Conditions(in.Block())
+						}
+					}
+				}
+			}
+		}
 		if prim == nil {
 			r.Bad("destroy-fan-out", fnDestroyLocal+" primary fragment", site(r, f.Pos()), "the primary fragment of the partition is not destroyed")
 		} else {
-			// every back edge is dominated by the call, except edges under errors.Is(err, ErrDMapNotFound)
+			// every way through an iteration passes the call, except under errors.Is(err,
+			// ErrDMapNotFound) (path sensitive for nil tests of the error)
 			bad := ""
+			latch := map[*ssa.BasicBlock]bool{}
 			for _, pb := range loop.Header.Preds {
-				if !loop.Header.Dominates(pb) || prim.Block().Dominates(pb) {
-					continue
+				if loop.Header.Dominates(pb) {
+					latch[pb] = true
 				}
-				isNotFound := func(conds []core.Cond) bool {
-					for _, cd := range conds {
+			}
+			body := map[*ssa.BasicBlock]bool{}
+			for b := range region {
+				if b != loop.Header {
+					body[b] = true
+				}
+			}
+			skip := pathSearch(loop.Stay, body, func(in ssa.Instruction) bool { return in == prim },
+				func(b *ssa.BasicBlock) bool { return latch[b] },
+				func(from, to *ssa.BasicBlock) bool {
+					for _, cd := range edgeConds(from, to) {
 						if call, ok := cd.Val.(*ssa.Call); ok && cd.Truth && callTo("errors.Is")(call) && core.IsGlobalLoad(call.Call.Args[1], dmapPkg, "ErrDMapNotFound") {
-							return true
+							return false
 						}
 					}
-					return false
-				}
-				allowed := isNotFound(edgeConds(pb, loop.Header))
-				// the latch block (post) merges several edges: look at its predecessors
-				if !allowed {
-					allowed = true
-					for _, pp := range pb.Preds {
-						if prim.Block().Dominates(pp) {
-							continue
-						}
-						if !isNotFound(edgeConds(pp, pb)) {
-							allowed = false
-						}
-					}
-				}
-				if !allowed {
-					bad = "an iteration can end without destroying the primary fragment"
-				}
+					return true
+				})
+			if skip != nil {
+				bad = "an iteration can end without destroying the primary fragment"
 			}
 			r.Check(bad == "", "destroy-fan-out", fnDestroyLocal+" primary fragment in every iteration", site(r, instrPos(prim)),
 				"every iteration destroys the primary fragment (only skip: the DMap is unknown on this member)",
@@ -178,7 +228,7 @@ func c19DestroyFanOut(r *core.Run) {
 		} else {
 			above, _ := replicaCountCond(back.Block())
 			onlyRC := true
-			for _, cd := range core.Conditions(back.Block()) {
+			for _, cd := range append(core.Conditions(back.Block()), backExtra...) {
 				if _, ok := isFieldCmp(cd, "Config", "ReplicaCount"); ok {
 					continue
 				}
